@@ -1,6 +1,6 @@
 import PhyModel.Proofs.StoreWF_addSubA
 /-! `Tree.add_subtree` (C07): grafting a well-formed subtree whose clone data are not yet in the tree
-preserves the invariant `Inv` (`Dense` is not preserved), appends the clone-side data of the subtree
+preserves the invariant `Inv0` (`Dense` is not preserved), appends the clone-side data of the subtree
 to `_data` (the subtree's outliers are dropped, as in the code) and leaves the outliers alone.
 `Full s` is needed: a clone of `s` without `_data` key would make the clash test of
 `relabelGrafted` miss a clash. -/
@@ -40,7 +40,7 @@ def renamed (L : List (NodeRec × Int)) : List NodeRec := L.map fun p => { p.1 w
 theorem reindex_names (f : SF) (c : Nat) : (reindex f c).1.names = f.names :=
   reindex_map (·.name) (fun _ _ => rfl) f c
 
-theorem graftMid_spec {s sub : Store} {f1 : SF} (hs : Inv s) (hsub : WF sub)
+theorem graftMid_spec {s sub : Store} {f1 : SF} (hs : Inv0 s) (hsub : WF sub)
     (hperm : f1.recs.Perm ((reindex sub.forest s.fresh).1.recs ++ s.forest.recs)) :
     ∃ L : List (NodeRec × Int), L.map (·.1) = (reindex sub.forest s.fresh).1.recs ∧
       (L.map (·.2)).Nodup ∧ (∀ nm ∈ L.map (·.2), nm ∉ keys s.data ∧ 0 ≤ nm) ∧
@@ -122,7 +122,7 @@ theorem flatMap_relabelled {s sub : Store} {L : List (NodeRec × Int)}
   rw [cloneData_eq, ← reindex_names sub.forest s.fresh, SF.names, ← hL]
   simp only [vals, List.flatMap_map, List.map_map]; rfl
 
-theorem graftMid_data {s sub : Store} {f1 : SF} (hs : Inv s) (hsub : WF sub)
+theorem graftMid_data {s sub : Store} {f1 : SF} (hs : Inv0 s) (hsub : WF sub)
     (hperm : f1.recs.Perm ((reindex sub.forest s.fresh).1.recs ++ s.forest.recs)) :
     vals (graftMid s sub f1).data = vals s.data ++ cloneData sub ∧
       (graftMid s sub f1).outliers = s.outliers := by
@@ -137,9 +137,9 @@ theorem graftMid_data {s sub : Store} {f1 : SF} (hs : Inv s) (hsub : WF sub)
   rw [hd, List.lookup_append, this, Option.or_none]
 
 
-theorem graftMid_inv {s sub : Store} {f1 : SF} (hs : Inv s) (hsub : WF sub)
+theorem graftMid_inv {s sub : Store} {f1 : SF} (hs : Inv0 s) (hsub : WF sub)
     (hperm : f1.recs.Perm ((reindex sub.forest s.fresh).1.recs ++ s.forest.recs))
-    (hleg : ∀ d ∈ cloneData sub, d ∉ vals s.data) : Inv (graftMid s sub f1) := by
+    (hleg : ∀ d ∈ cloneData sub, d ∉ vals s.data) : Inv0 (graftMid s sub f1) := by
   obtain ⟨L, hL1, hL3, hL4, hd, hni, hnir, hf⟩ := graftMid_spec hs hsub hperm
   obtain ⟨hw, hfull⟩ := hs
   have hRn : (renamed L).map (·.name) = L.map (·.2) := by
@@ -226,7 +226,7 @@ theorem graftMid_inv {s sub : Store} {f1 : SF} (hs : Inv s) (hsub : WF sub)
 
 /-- `add_subtree` = graft, relabel (`graftMid`), then refresh cached vectors -/
 theorem addSubtree_mid' {dt : Data} {s sub s' : Store} {parent : Option Int}
-    (h : s.addSubtree dt sub parent = some s') (hs : Inv s) :
+    (h : s.addSubtree dt sub parent = some s') (hs : Inv0 s) :
     ∃ f1 src, f1.recs.Perm ((reindex sub.forest s.fresh).1.recs ++ s.forest.recs) ∧
       updatePathToRoot dt (graftMid s sub f1) src = some s' := by
   obtain ⟨f1, src, hf1, hu⟩ := addSubtree_mid h
@@ -236,8 +236,8 @@ theorem addSubtree_mid' {dt : Data} {s sub s' : Store} {parent : Option Int}
   · exact graftAt_perm _ hs.1.idxs_nodup hpi
 
 theorem addSubtree_inv {dt : Data} {s sub s' : Store} {parent : Option Int}
-    (h : s.addSubtree dt sub parent = some s') (hs : Inv s) (hsub : WF sub)
-    (hleg : ∀ d ∈ cloneData sub, d ∉ vals s.data) : Inv s' := by
+    (h : s.addSubtree dt sub parent = some s') (hs : Inv0 s) (hsub : WF sub)
+    (hleg : ∀ d ∈ cloneData sub, d ∉ vals s.data) : Inv0 s' := by
   obtain ⟨f1, src, hperm, hu⟩ := addSubtree_mid' h hs
   obtain ⟨hw, hf⟩ := graftMid_inv hs hsub hperm hleg
   obtain ⟨h1, h2, _⟩ := updatePathToRoot_inv hu
@@ -245,7 +245,7 @@ theorem addSubtree_inv {dt : Data} {s sub s' : Store} {parent : Option Int}
 
 /-- data, exact form: the clone-side data of the subtree are appended -/
 theorem addSubtree_data_eq {dt : Data} {s sub s' : Store} {parent : Option Int}
-    (h : s.addSubtree dt sub parent = some s') (hs : Inv s) (hsub : WF sub) :
+    (h : s.addSubtree dt sub parent = some s') (hs : Inv0 s) (hsub : WF sub) :
     vals s'.data = vals s.data ++ cloneData sub := by
   obtain ⟨f1, src, hperm, hu⟩ := addSubtree_mid' h hs
   obtain ⟨_, _, _, hd, _⟩ := updatePathToRoot_spec hu
@@ -253,12 +253,12 @@ theorem addSubtree_data_eq {dt : Data} {s sub s' : Store} {parent : Option Int}
 
 /-- data: the clone-side data of the subtree are added (its outliers are dropped, as in the code) -/
 theorem addSubtree_data {dt : Data} {s sub s' : Store} {parent : Option Int}
-    (h : s.addSubtree dt sub parent = some s') (hs : Inv s) (hsub : WF sub) :
+    (h : s.addSubtree dt sub parent = some s') (hs : Inv0 s) (hsub : WF sub) :
     (vals s'.data).Perm (vals s.data ++ cloneData sub) :=
   List.Perm.of_eq (addSubtree_data_eq h hs hsub)
 
 theorem addSubtree_outliers {dt : Data} {s sub s' : Store} {parent : Option Int}
-    (h : s.addSubtree dt sub parent = some s') (hs : Inv s) (hsub : WF sub) :
+    (h : s.addSubtree dt sub parent = some s') (hs : Inv0 s) (hsub : WF sub) :
     s'.outliers = s.outliers := by
   obtain ⟨f1, src, hperm, hu⟩ := addSubtree_mid' h hs
   obtain ⟨_, _, _, hd, _⟩ := updatePathToRoot_spec hu
